@@ -35,6 +35,8 @@ import (
 // parked: batches completing together, pushes from handlers during delivery,
 // callback replies racing client sends, stop racing deliveries.
 
+var c10oddNames = []string{"bell\aalert", "vt\vtab", "del\x7f", "nul\x00byte", "esc\x1b[0m", "line\u2028sep", "astral\U000E0001tag", "quote\"back\\slash", "<html>&amp;", "é"}
+
 func c10validRecord(rec []byte) error {
 	var raws []json.RawMessage
 	isArr := false
@@ -121,9 +123,20 @@ func c10stress(c *vt.Ctx, rng *rand.Rand, callers, opsPer int, endHow int) {
 				// the deadline only keeps a broken build from hanging the round; it is no verdict
 				ctx, cancelOp := context.WithTimeout(context.Background(), 20*time.Second)
 				var err error
-				switch r.IntN(9) {
+				switch r.IntN(11) {
 				case 8:
 					_, err = cli.Batch(ctx, []jrpc2.Spec{{Method: "e"}})
+				case 9: // method names that need JSON (not Go) escaping must still give whole messages
+					name := c10oddNames[r.IntN(len(c10oddNames))]
+					err = cli.Notify(ctx, name, nil)
+					if err == nil {
+						_, err = cli.Call(ctx, name, []string{name})
+						if _, ok := err.(*jrpc2.Error); ok {
+							err = nil
+						}
+					}
+				case 10:
+					srv.Notify(ctx, c10oddNames[r.IntN(len(c10oddNames))], map[string]string{"k": "v\u2028\a"})
 				case 0, 1:
 					_, err = cli.Call(ctx, "i", []int{k})
 				case 2:
